@@ -213,6 +213,12 @@ def step (st : DState) (line : String) : DState × String :=
           | none => "U undefined")
         | .error e => showErr e
       | _, _ => "bad-op")
+  | "pen" :: v :: fs :: tc :: tw :: tz :: w :: cids =>
+    -- pen after one string of a composite font under the text state (Tc, Tw, Tz); every cid has width w
+    (st, match parseNum fs, parseNum tc, parseNum tw, parseNum tz, parseNum w, cids.mapM (·.toNat?) with
+      | some fs, some tc, some tw, some tz, some w, some cids =>
+        "P " ++ ratToString (penAfter (v == "1") true fs.1 ⟨tc.1, tw.1, tz.1 / 100⟩ (fun _ => w.1) cids 0)
+      | _, _, _, _, _, _ => "bad-op")
   | "tu" :: ws =>
     (st, match ws.mapM parseTok with
       | some toks => match parseToUnicode toks with
